@@ -758,6 +758,40 @@ func c05Spaces(c *fw.Ctx) {
 			}
 		})
 
+	c.Space("rdata-less-text", "for every registered type: the RDATA-less record (RFC 2136 §2.5.2 / §2.4: class ANY or NONE, RDLENGTH 0) as UnpackRR returns it from the wire: String() is read back by NewRR and by the zone parser (alone and followed by another record line) and gives a record with the same owner, class, TTL, type and no RDATA; one case per type; non-trivial: all", true,
+		func(emit func(func(*fw.R))) {
+			for _, t := range regTypes() {
+				t := t
+				if t == dns.TypeOPT || c05NoText[t] {
+					continue
+				}
+				emit(func(r *fw.R) {
+					r.Nontrivial()
+					for _, class := range []uint16{dns.ClassANY, dns.ClassNONE} {
+						wireb := []byte{4, 'h', 'o', 's', 't', 0, byte(t >> 8), byte(t), byte(class >> 8), byte(class), 0, 0, 0, 0, 0, 0}
+						rr, _, err := dns.UnpackRR(wireb, 0)
+						if err != nil || rr == nil {
+							return // C01's business
+						}
+						text := rr.String()
+						for vi, in := range []string{text, text + "\n", text + "\nnext. 7 IN A 192.0.2.1\n"} {
+							zp := dns.NewZoneParser(strings.NewReader(in), "", "")
+							back, ok := zp.Next()
+							good := ok && back != nil && zp.Err() == nil
+							if good {
+								off, err := dns.PackRR(back, packBuf, 0, nil, false)
+								good = err == nil && bytes.Equal(packBuf[:off], wireb)
+							}
+							if !good {
+								r.Fail("not-reparsable/rdata-less", "type %d class %d without RDATA: String() = %q; read back (variant %d: 0 as it stands, 1 with a line break, 2 followed by another record) = %v, Err() = %v — not the record", t, class, text, vi, back, zp.Err())
+								break
+							}
+						}
+					}
+				})
+			}
+		})
+
 	c.Space("class-codes", "all 65536 class codes: CLASSnnn and the mnemonic (IN, CS, CH, HS, NONE, ANY) denote the same code in a record line; Class.String re-parses; non-trivial: the code has a mnemonic", true,
 		func(emit func(func(*fw.R))) {
 			for code := 0; code < 65536; code++ {
